@@ -159,3 +159,16 @@ Definition secure_handler (out : oracle) (alts : list alt) (az : authorizer) (bi
     | (t, AuthPanic) => t ++ [Panicked]
     end
   end.
+
+(* ---- validateRequest (validation.go) checks the response format - the Accept header against what the operation
+   produces - after the content type and BEFORE it binds the parameters: a request that was let through and accepts
+   none of the offers is answered 406, and neither binding nor the handler runs. A refused request never gets
+   there: its refusal is what it is without the Accept header. fmt_ok = some offer is acceptable to the request. ---- *)
+Fixpoint cut_at_bind (tr : list event) : list event :=
+  match tr with
+  | [] => []
+  | ev :: r => match ev with Bind => [Respond 406 0] | _ => ev :: cut_at_bind r end
+  end.
+
+Definition secure_handler_fmt (out : oracle) (alts : list alt) (az : authorizer) (bind_ok fmt_ok : bool) : list event :=
+  if fmt_ok then secure_handler out alts az bind_ok else cut_at_bind (secure_handler out alts az bind_ok).
